@@ -7,17 +7,11 @@ import TaRs.Lemmas.Core.SimpleMovingAverage
 import TaRs.Gen.SimpleMovingAverage
 import TaRs.Lemmas.RsLemmas
 import TaRs.Lemmas.Total.SimpleMovingAverage
+import TaRs.Lemmas.Bar.SimpleMovingAverage
 namespace TaRs.Gen.SimpleMovingAverage
 open TaRs TaRs.Rs
 
 variable {F : Type} [Scalar F]
-
-/-- wiring of the bar path: WHICH field of the bar `next(&bar)` reads (a value-level fact, hence
-    here and not among the value-agnostic totality lemmas) -/
-theorem nextBar_eq (s : SimpleMovingAverage F) (b : Bar F) : s.nextBar b = s.next b.close := by
-  unfold nextBar
-  try simp only [gen_helper]
-  cases h : s.next b.close <;> simp [h]
 
 /-- Normal form of one `next` on a well-formed state.  This is the ONLY fact about `next` proved
     by executing the generated body; it does so with `rs_exec`, which does not depend on how the
